@@ -39,7 +39,7 @@ pub struct RHistory {
     pub fragsel: u8,
     /// 0: whole menu; 1: small alignments only, plus over-aligned zero-size types (so that a
     /// zero-size datum is the most aligned of the definition); 2: wide (the first variant has
-    /// 17..=22 fields)
+    /// 17..=22 fields); 3: long (up to 11 variants: the blocks are replayed twice)
     #[serde(default)]
     pub profile: u8,
 }
@@ -51,12 +51,13 @@ pub const NAME_POOL: [&str; 12] =
     ["alpha", "beta", "gamma", "delta", "eps", "zeta", "count2", "is_ok", "the_value", "x_1", "kappa_mu", "n0"];
 
 /// Weighted menu: tokens and owned types are over-represented.
-pub const WEIGHTED: [usize; 64] = [
+pub const WEIGHTED: [usize; 67] = [
     0, 1, 2, 3, 4, 5, 6, 7, 8, 9, 10, 11, 12, 13, 14, 15, 16, 17, 18, 19, 20, 21, 22, 23, 24, 25, 26, 27, 28, 29, 30, // once each
     22, 23, 24, 25, 26, 27, 28, 22, 24, 26, 28, // tokens
     17, 18, 19, 20, 21, 17, // owned
     12, 13, 14, 5, 8, 2, 3, 0, // zero-size, odd sizes, integers
     31, 32, 33, 31, 32, 31, 32, 33, // large token, vector of tokens, large plain data
+    34, 35, 34, // cache-line alignment, 320 bytes
 ];
 
 pub fn add_req() -> impl Strategy<Value = RReq> {
@@ -94,7 +95,7 @@ pub fn rhistory() -> impl Strategy<Value = RHistory> {
         prop_oneof![1 => Just(vec![]).boxed(), 9 => prop::collection::vec(block(false), 1..6).boxed()],
         strat_strategy(),
         0u8..4,
-        prop_oneof![10 => Just(0u8), 2 => Just(1u8), 1 => Just(2u8)],
+        prop_oneof![10 => Just(0u8), 2 => Just(1u8), 1 => Just(2u8), 1 => Just(3u8)],
     )
         .prop_map(|(first, rest, final_strat, fragsel, profile)| {
             let mut reqs = first;
@@ -112,8 +113,13 @@ pub fn rhistory() -> impl Strategy<Value = RHistory> {
                 }
                 reqs.extend(close);
             }
-            for b in rest {
-                reqs.extend(b);
+            for b in &rest {
+                reqs.extend(b.iter().cloned());
+            }
+            if profile == 3 {
+                for b in &rest {
+                    reqs.extend(b.iter().cloned());
+                }
             }
             RHistory { reqs, final_strat, fragsel, profile }
         })
@@ -330,7 +336,7 @@ pub fn build_ext(h: &RHistory, ext: &Ext) -> Built {
                 pending = true;
             }
             RReq::Close { strat } => {
-                if closes >= MAX_VARIANTS {
+                if closes >= if h.profile == 3 { 10 } else { MAX_VARIANTS } {
                     continue;
                 }
                 removed_names.clear();
